@@ -37,6 +37,7 @@ def _worker(args):
     t0 = time.time()
     try:
         rec = core.run_shape(sh, tier, seed)
+        rec.setdefault("wall", round(time.time() - t0, 2))
     except _Timeout:
         rec = dict(shape=name, group=sh.group, canary=sh.canary, paths=0, obligations=0, discharged=0, trivial=0,
                    inconclusive=[dict(path=None, reason=f"shape budget of {budget}s exceeded")], violations=[],
@@ -252,6 +253,9 @@ def report(pid, mod, a, seed, recs, wall):
     print(f"{pid} [{a.tier}] shapes={len(recs)} paths={tot['paths']} obligations={tot['obligations']} discharged={tot['discharged']} "
           f"inconclusive={n_inc} violations={len(viol)} known={len(known)} canaries={sum(c['refuted'] for c in canaries)}/{len(canaries)} "
           f"queries={tot['queries']} solver={tot['solver']:.1f}s wall={wall:.1f}s")
+    if os.environ.get("VERIF_VERBOSE"):
+        slow = sorted(recs, key=lambda r: -(r.get("wall") or 0))[:6]
+        print("  slowest shapes:", ", ".join(f"{r['shape']} {r.get('wall')}s" for r in slow))
     if inconc and os.environ.get("VERIF_VERBOSE"):
         for i in inconc[:20]:
             print("  inconclusive:", i)
